@@ -15,6 +15,13 @@ def reqIdOf : SOut → Option Nat
 
 def reqIds (os : List SOut) : List Nat := os.filterMap reqIdOf
 
+/-- the messages among some outputs -/
+def sends (o : List SOut) : List OutMsg := o.filterMap (fun | .send m => some m | _ => none)
+
+/-- the completions among some outputs -/
+def completions (o : List SOut) : List (FutId × Outcome) :=
+  o.filterMap (fun | .complete f v => some (f, v) | _ => none)
+
 /-- id of the k-th (0-based) request drawn from a session object -/
 def idOf (k : Nat) : Nat := k % idMax + 1
 def idsFrom (a n : Nat) : List Nat := (List.range' a n).map idOf
